@@ -5,6 +5,7 @@ import (
 	"bytes"
 	"encoding/binary"
 	"fmt"
+	"strconv"
 
 	"github.com/Tnze/go-mc/level"
 
@@ -406,7 +407,13 @@ func run(c *vm.Ctx) {
 	ns = append(ns, 256, 4096)
 	steps := c.Pick(1000, 4000)
 	idx := 0
-	for b := 0; b <= 32; b++ {
+	maxBits := 32
+	if strconv.IntSize == 32 {
+		// the API speaks int: on a 32-bit platform a 32-bit unsigned value cannot be passed in or out at all
+		maxBits = 31
+		c.Note("ia32", "widths 0..31 only: Get/Set/Swap take and return int")
+	}
+	for b := 0; b <= maxBits; b++ {
 		for _, n := range ns {
 			idx++
 			if idx%c.NShards != c.Shard {
